@@ -23,13 +23,13 @@ harness("c06_seek_total", props=["C06", "C10"], panic_props=["C06"], timeout=600
 # ---------------------------------------------------------------- names
 for (n, tier, to) in [("c09_cmp_ascii_1_2", "quick", 300), ("c09_cmp_ascii_2_2", "quick", 400),
                       ("c09_cmp_ascii_3_2", "thorough", 900), ("c09_cmp_ascii_3_3", "thorough", 3600)]:
-    harness(n, props=["C09", "C04", "C01"], tier=tier, timeout=to, mem=8, stubs=[FMT, STUB_UP],
+    harness(n, props=["C09", "C04", "C01", "C03"], tier=tier, timeout=to, mem=8, stubs=[FMT, STUB_UP],
             what="compare_names(a, b) == CFB order (shorter in UTF-16 units first, then upper-cased units) for ALL pairs of printable-ASCII names of the given lengths (fast path)",
             bounds="names of %s printable ASCII characters, all values" % n[-3:].replace("_", " and "),
             functions=["path::compare_names"], assumes=[A_UPTABLE])
 for (n, tier, to) in [("c09_cmp_sigma_1_2", "quick", 600), ("c09_cmp_sigma_2_2", "quick", 900),
                       ("c09_cmp_sigma_2_1", "thorough", 900)]:
-    harness(n, props=["C09", "C04", "C01"], tier=tier, timeout=to, mem=8, stubs=[FMT, STUB_UP],
+    harness(n, props=["C09", "C04", "C01", "C03"], tier=tier, timeout=to, mem=8, stubs=[FMT, STUB_UP],
             what="compare_names == CFB order for all pairs of names over SIGMA (ASCII case pairs, digit, punctuation sorting between Z and a, caseless sharp s, e-acute pair, U+1F80/U+1F88 exceptional pair, supplementary-plane U+1D49C): general path and its agreement with the ASCII fast path",
             bounds="names of %s characters over the 15-character alphabet SIGMA" % n[-3:].replace("_", " and "),
             functions=["path::compare_names", "path::cfb_uppercase_char (via table)"], assumes=[A_UPTABLE])
@@ -399,27 +399,27 @@ _CQ = seqs.quick()
 QUICK.update({
     "C01": ["c09_cmp_ascii_2_2", "c09_cmp_sigma_1_2"] + _RM[:4] + _INS[:1] + _LOOK[:1] +
            ["stor_read_cross", "stor_write_mid", "api_ref_parent_is_stream", "api_ref_new_stream_exists", "big_remove_4096"],
-    "C02": ["alloc_begin_free13", "alloc_extend_nofree", "alloc_free_chain3", "mini_begin_reuse", "mini_begin_at_128", "mini_free_tail2", "c13_dirent_fault_at3", "open_valid_permissive",
+    "C02": ["alloc_begin_free13", "alloc_extend_nofree", "alloc_free_chain3", "mini_begin_reuse", "mini_begin_at_128", "mini_free_tail2", "c13_dirent_fault_at3", "open_valid_permissive", "dir_rm_n4_s7_v2",
             "dir_rm_n4_s8_v3", "dir_ins_n3_s0_g1", "dirent_rt_storage_2", "hdr_roundtrip", "api_setters", "difat_second_sector",
             "cache_c_write_flush_write_read_min"],
     "C03": ["alloc_begin_nofree", "alloc_free_after3", "mini_begin_after_empty", "mini_free_cross", "mini_free_all",
             "dir_rm_n4_s8_v3", "dir_rm_n3_s2_v2", "dirent_unallocated_blank", "stor_resize_to_0", "big_5000_to_4096",
-            "big_4096_to_100", "difat_first_sector", "difat_second_sector", "hdr_roundtrip"],
+            "big_4096_to_100", "difat_first_sector", "difat_second_sector", "hdr_roundtrip", "c09_cmp_sigma_1_2", "big_write_4096_mid"],
     "C04": ["c09_cmp_ascii_2_2", "c09_cmp_sigma_2_2", "alloc_next_total", "chain_new_total"] + _LOOK +
            ["dirent_parse_stream_v3", "dirent_parse_root_v3", "stor_read_cross", "alloc_validate_rel", "open_valid_permissive"],
     "C05": ["alloc_next_total", "chain_new_total", "alloc_validate_rel", "dirent_parse_storage_v3", "dirent_parse_badtype_v3",
             "dirent_parse_stream_v3"],
     "C06": ["c06_seek_total", "c11_write_total", "c11_resize_u64max", "stor_read_clip"] + _CQ,
-    "C07": _RM + _INS[:1] + ["alloc_free_chain3", "stor_write_mid", "big_4096_to_100", "big_remove_4096", "api_setters"],
-    "C08": ["alloc_begin_free13", "alloc_extend_free3", "stor_resize_in_sector", "stor_resize_reuse", "big_grow_100_to_4200"],
+    "C07": _RM + _INS[:1] + ["alloc_free_chain3", "stor_write_mid", "big_4096_to_100", "big_remove_4096", "big_write_4096_mid", "api_setters"],
+    "C08": ["alloc_begin_free13", "alloc_extend_free3", "stor_resize_in_sector", "stor_resize_reuse", "big_grow_100_to_4200", "big_5000_to_5100"],
     "C09": ["c09_cmp_ascii_1_2", "c09_cmp_ascii_2_2", "c09_cmp_sigma_1_2", "c09_cmp_sigma_2_2", "api_invalid_names",
-            "dir_look_n4_s8", "dir_rm_n3_s2_v2"],
+            "dir_look_n4_s8", "dir_rm_n3_s2_v2", "dirent_maxname_concrete"],
     "C10": ["c06_seek_total", "api_invalid_names", "api_ref_new_stream_exists", "api_ref_parent_is_stream",
             "api_ref_remove_stream_on_storage", "api_ref_storage_on_stream", "api_ref_escape_root", "api_ref_clsid_on_stream",
             "cache_c_refused_seeks_change_nothing_min"],
     "C11": ["alloc_next_total", "chain_new_total", "mini_next_total"] + _WALK_Q +
            ["c11_incons_eoc100_write0", "c11_incons_eoc100_resize50", "c11_incons_short300_write_beyond", "c11_incons_reg_in_mini_resize0",
-            "c11_resize_u64max", "c11_write_data_overflow", "c11_write_total", "c11_incons_regshort_resize4500", "c11_root_cycle_append"],
+            "c11_resize_u64max", "c11_write_data_overflow", "c11_write_total", "c11_incons_regshort_resize4500", "c11_root_cycle_append", "open_uncovered_reuse"],
     "C12": ["stor_read_fault_seek0", "stor_read_fault_seek1", "stor_read_fault_read0", "stor_read_cross"] + [n for n in seqs.quick_faults() if "c12" in n],
     "C13": ["c13_free_fault_at0", "c13_free_fault_at2", "c13_free_fault_at4", "c13_dirent_fault_at0", "c13_dirent_fault_at3", "c13_mini_first_fault_at3", "c13_mini_first_fault_at6", "cache_c_write_flush_write_read_min"] + [n for n in seqs.quick_faults() if "c13" in n],
     "C14": ["c14_lookups", "c14_iter_root", "c14_iter_walk", "c14_iter_storage", "c14_stream_rw", "c14_stream_setlen", "c14_stream_big_window"],
@@ -429,5 +429,5 @@ QUICK.update({
             "alloc_validate_rel", "dirent_root_name_lower", "dirent_rt_root", "open_valid_permissive", "open_valid_strict"],
     "C17": ["dirent_rt_storage_2", "dirent_rt_root", "api_setters", "dir_ins_n3_s0_g1", "hdr_roundtrip", "c13_dirent_fault_at3"],
     "C18": ["chunky_init_zero_one", "chunky_init_zero_intr", "chunky_init_fat_one", "chunky_dirent_one", "chunky_stor_first_one", "cache_c_write_longer_than_buffer_min",
-            "cache_c_write_longer_than_buffer_b12", "cache_c_read_then_shrink_inside_window_min", "cache_c_read_then_shrink_inside_window_b32"],
+            "cache_c_write_longer_than_buffer_b12", "cache_c_read_then_shrink_inside_window_min", "cache_c_read_then_shrink_inside_window_b32", "big_write_migrate"],
 })
